@@ -121,6 +121,7 @@ func init() {
 			}},
 		// DropMeasurement || reader || writer, shard stays open (oracle leniency: c04Log.dropStartedBefore)
 		c04Scenario{Name: "S8_drop_read_write", Preload: []string{"We", "F", "Wa"},
+			Seam: &c04Seam{FreeQuick: 1, FreeDeep: 2},
 			Threads: func(v *vShard, l *c04Log) map[string]func() {
 				return map[string]func(){
 					"1drop":   func() { l.drop(v, "m") },
